@@ -18,7 +18,7 @@ pub fn make_monitor(prop: &str, n: usize, cap: usize, profile: Profile) -> Box<d
         "C04" => Box::new(C04::new(n, cap)),
         "C05" => Box::new(C05::default()),
         "C08" => Box::new(crate::mon_twin::C08::new()),
-        "C10" => Box::new(crate::mon_twin::C10::new()),
+        "C10" => Box::new(crate::mon_twin::C10::new_clone()),
         "C18" => Box::new(crate::mon_text::C18::default()),
         "C20" => Box::new(crate::mon_text::C20::default()),
         "C13" => Box::new(crate::mon_slice::C13::default()),
@@ -125,6 +125,13 @@ fn configure_gen(prop: &str, g: &mut Gen) {
     match prop {
         // C03's oracle compares label values with the model: keep script label parsing (C14/C17) out
         "C03" | "C04" => g.allow_script = false,
+        "C08" => {
+            g.boost_save = 6;
+            if g.rng.chance(1, 2) {
+                g.allocator_ops_after = g.rng.range(10, 60);
+            }
+        }
+        "C10" => g.boost_clone = 6,
         _ => {}
     }
 }
